@@ -29,6 +29,7 @@ struct ProgBody {
     end_err: bool,
     pend: bool,
     armed: bool,
+    pulled: Rc<RefCell<Vec<usize>>>,
 }
 impl MessageBody for ProgBody {
     type Error = std::io::Error;
@@ -53,6 +54,14 @@ impl MessageBody for ProgBody {
         self.idx += 1;
         let b: Vec<u8> = (0..n).map(|k| pat(self.i, self.off + k)).collect();
         self.off += n;
+        {
+            // bytes the dispatcher has pulled out of this stream's body so far
+            let mut p = self.pulled.borrow_mut();
+            if p.len() < self.i {
+                p.resize(self.i, 0);
+            }
+            p[self.i - 1] += n;
+        }
         Poll::Ready(Some(Ok(Bytes::from(b))))
     }
 }
@@ -153,9 +162,12 @@ fn run_case(case: &Value) -> Vec<Value> {
         let log: Log = Rc::new(RefCell::new(vec![]));
         let streams = Rc::new(case["streams"].clone());
         let st2 = streams.clone();
+        let pulled: Rc<RefCell<Vec<usize>>> = Rc::new(RefCell::new(vec![]));
+        let pulled2 = pulled.clone();
         let svc = HttpService::build()
             .h2(fn_service(move |req: Request| {
                 let st = st2.clone();
+                let pulled = pulled2.clone();
                 async move {
                     let i: usize = req.path().strip_prefix("/r").and_then(|s| s.parse().ok()).unwrap_or(1);
                     let p = &st[i - 1];
@@ -171,7 +183,7 @@ fn run_case(case: &Value) -> Vec<Value> {
                     if p["user_cl"].as_bool().unwrap_or(false) {
                         b.insert_header(("content-length", total.to_string()));
                     }
-                    let body = ProgBody { i, chunks, idx: 0, off: 0, size, end_err: p["end_err"].as_bool().unwrap_or(false), pend: p["pend"].as_bool().unwrap_or(false), armed: false };
+                    let body = ProgBody { i, chunks, idx: 0, off: 0, size, end_err: p["end_err"].as_bool().unwrap_or(false), pend: p["pend"].as_bool().unwrap_or(false), armed: false, pulled };
                     Ok::<_, std::convert::Infallible>(b.body(body))
                 }
             }))
@@ -204,6 +216,13 @@ fn run_case(case: &Value) -> Vec<Value> {
         for t in tasks {
             let _ = t.await;
         }
+        // let the server side run on: whatever it still wants to pull from the body of a stream the client has reset, it pulls now
+        for _ in 0..20 {
+            tokio::time::sleep(std::time::Duration::from_millis(5)).await;
+        }
+        for (k, n) in pulled.borrow().iter().enumerate() {
+            log.borrow_mut().push(json!({"ev":"Pulled","s":k + 1,"n":n}));
+        }
         connt.abort();
         server.abort();
         log.borrow_mut().push(json!({"ev":"Done"}));
@@ -223,10 +242,11 @@ pub fn replay(cases: &[Value], out: &mut TraceOut) {
                 let total: u64 = chunks.iter().sum();
                 json!({"method":p["method"],"status":p["status"],"total":total,"sized":p["sized"].as_bool().unwrap_or(false),
                        "declared":p["declared"].as_u64().unwrap_or(total),"end_err":p["end_err"].as_bool().unwrap_or(false),
-                       "policy":p["policy"].as_str().unwrap_or("auto"),"client_resets":p["policy"] == "reset","stuck_handler":false})
+                       "policy":p["policy"].as_str().unwrap_or("auto"),"client_resets":p["policy"] == "reset","stuck_handler":false,
+                       "maxchunk":chunks.iter().copied().max().unwrap_or(0)})
             })
             .collect();
-        out.emit(json!({"ev":"Reset","run":i+1,"streams":gt}));
+        out.emit(json!({"ev":"Reset","run":i+1,"streams":gt,"window":case["window"].as_u64().unwrap_or(65535)}));
         match crate::util::guarded(|| run_case(case)) {
             Ok(evs) => {
                 for e in evs {
